@@ -4682,7 +4682,11 @@ impl<'a> Parser<'a> {
                 continue;
             }
 
-            let readonly = self.match_token(&TokenKind::Readonly);
+            // `readonly` is a modifier unless it is the member's own name (`readonly: boolean`)
+            let readonly = self.check(&TokenKind::Readonly) && !self.peek_ends_member_name();
+            if readonly {
+                self.advance();
+            }
 
             // Check for index signature: [key: type]: valueType
             if self.check(&TokenKind::LBracket) {
@@ -4746,6 +4750,28 @@ impl<'a> Parser<'a> {
         }
 
         Ok(members)
+    }
+
+    /// At a word that may be a modifier or the member's own name: does the next token end a
+    /// member name (`readonly: T`, `readonly?: T`, `readonly(): T`, `readonly<T>(): T`, `readonly;`,
+    /// `readonly = 1`, `readonly!: T`, `readonly }`)?
+    fn peek_ends_member_name(&mut self) -> bool {
+        let checkpoint = self.lexer.checkpoint();
+        let next = self.lexer.next_token();
+        self.lexer.restore(checkpoint);
+        matches!(
+            next.kind,
+            TokenKind::Colon
+                | TokenKind::Question
+                | TokenKind::LParen
+                | TokenKind::Lt
+                | TokenKind::Semicolon
+                | TokenKind::Comma
+                | TokenKind::Eq
+                | TokenKind::Bang
+                | TokenKind::RBrace
+                | TokenKind::Eof
+        )
     }
 
     fn parse_optional_type_parameters(&mut self) -> Result<Option<TypeParameters>, JsError> {
